@@ -1249,3 +1249,119 @@ Section Sniffed.
     destruct Hcases as [E|E]; inversion E; subst; repeat split; auto.
   Qed.
 End Sniffed.
+
+(* ---------------------------------------------------------------------------------------------
+   the DNS-knowledge keys: store side (wire-form question name) and lookup side (sniffed name)
+   --------------------------------------------------------------------------------------------- *)
+Close Scope string_scope.
+Open Scope N_scope.
+
+Lemma suffix_shape : forall c s, has_suffix1 c s = true -> s = removelast s ++ [c].
+Proof.
+  intros c s H. unfold has_suffix1 in H. destruct (rev s) as [|y r] eqn:E; try discriminate.
+  apply N.eqb_eq in H. subst y.
+  assert (E' : s = rev r ++ [c]) by (rewrite <- (rev_involutive s); rewrite E; reflexivity).
+  rewrite E' at 2. rewrite removelast_last. exact E'.
+Qed.
+
+(* name without a trailing backslash once its final dot is removed (no escaped final dot) *)
+Definition no_escaped_dot (n : str) : bool := negb (has_suffix1 c_bslash (trim_suffix_dot n)).
+Definition no_pipe (n : str) : bool := negb (contains c_pipe n).
+
+Lemma fqdn_trim : forall n, no_escaped_dot n = true -> fqdn n = trim_suffix_dot n ++ [c_dot].
+Proof.
+  intros n H. unfold no_escaped_dot in H. apply negb_true_iff in H.
+  unfold fqdn, is_fqdn, trim_suffix_dot in *. destruct (has_suffix1 c_dot n) eqn:E.
+  - rewrite H. apply suffix_shape. exact E.
+  - reflexivity.
+Qed.
+
+Lemma ascii_lower_app : forall a b, ascii_lower (a ++ b) = ascii_lower a ++ ascii_lower b.
+Proof. intros. unfold ascii_lower. apply map_app. Qed.
+
+(* the code's key is the spec's key: normal form of the name (lower case, no trailing dot) + "." + type *)
+Lemma key_canonical : forall n q, no_escaped_dot n = true -> cache_key n q = spec_key n q.
+Proof.
+  intros n q H. unfold cache_key, canonical_name, spec_key, name_norm.
+  rewrite (fqdn_trim n H). rewrite ascii_lower_app. rewrite <- app_assoc. reflexivity.
+Qed.
+
+Lemma contains_pipe_lower : forall s, contains c_pipe (ascii_lower s) = contains c_pipe s.
+Proof.
+  induction s as [|x s IH]; auto. cbn [ascii_lower map]. rewrite !contains_cons. fold (ascii_lower s). rewrite IH.
+  f_equal. unfold c_pipe. destruct ((65 <=? x) && (x <=? 90)) eqn:E; auto. lia.
+Qed.
+
+Lemma break_at_none : forall c s, contains c s = false -> break_at c s = None.
+Proof.
+  induction s as [|x s IH]; auto. intros H. rewrite contains_cons in H. apply orb_false_iff in H. destruct H as [H1 H2].
+  cbn [break_at]. rewrite N.eqb_sym. rewrite H1. rewrite IH by auto. reflexivity.
+Qed.
+
+Lemma cache_key_no_pipe : forall n q, no_escaped_dot n = true -> no_pipe n = true -> contains c_pipe (cache_key n q) = false.
+Proof.
+  intros n q H1 H2. rewrite key_canonical by auto. unfold spec_key, name_norm. unfold no_pipe in H2. apply negb_true_iff in H2.
+  rewrite !contains_app. rewrite contains_pipe_lower.
+  assert (contains c_pipe (trim_suffix_dot n) = false).
+  { unfold trim_suffix_dot. destruct (has_suffix1 c_dot n); auto. apply contains_removelast. exact H2. }
+  rewrite H. cbn [orb]. replace (contains c_pipe [c_dot]) with false by reflexivity. cbn [orb].
+  apply digits_not_contain; [apply itoa_digits | unfold c_pipe; lia].
+Qed.
+
+Lemma store_key_canonical : forall is_ip : str -> bool, forall n q scope,
+    no_escaped_dot n = true -> no_pipe n = true -> store_key n q scope = spec_key n q.
+Proof.
+  intros _ n q scope H1 H2. unfold store_key. pose proof (cache_key_no_pipe n q H1 H2) as HP.
+  destruct scope as [|c sc].
+  - rewrite app_nil_r. unfold base_key. rewrite break_at_none by auto. apply key_canonical. auto.
+  - unfold base_key. rewrite break_at_app by auto. apply key_canonical. auto.
+Qed.
+
+(* store-key(question name) = lookup-key(sniffed name) whenever the names are equal up to ASCII case and
+   a trailing dot *)
+Lemma store_key_is_lookup_key : forall qname dom q scope,
+    same_name qname dom = true ->
+    no_escaped_dot qname = true -> no_pipe qname = true -> no_escaped_dot dom = true ->
+    store_key qname q scope = lookup_key dom q.
+Proof.
+  intros qname dom q scope HS H1 H2 H3. rewrite (store_key_canonical (fun _ => false)) by auto.
+  unfold lookup_key. rewrite key_canonical by auto. unfold spec_key. unfold same_name in HS.
+  apply str_eqb_eq in HS. rewrite HS. reflexivity.
+Qed.
+
+(* the variant "canonicalise only when the trailing dot is missing" breaks that agreement *)
+Definition cache_key_only_without_dot (qname : str) (qtype : N) : str :=
+  (if has_suffix1 c_dot qname then qname else canonical_name qname) ++ itoa qtype.
+
+Open Scope string_scope.
+Lemma key_variant_refuted :
+  exists qname dom q,
+    same_name qname dom = true /\ no_escaped_dot qname = true /\ no_pipe qname = true /\ no_escaped_dot dom = true /\
+    base_key (cache_key_only_without_dot qname q) <> cache_key_only_without_dot dom q.
+Proof.
+  exists (bs "wWw.SeEd-DeMo.ExAmPlE."), (bs "www.seed-demo.example"), 1.
+  repeat split; try (vm_compute; reflexivity). vm_compute. discriminate.
+Qed.
+Close Scope string_scope.
+
+Open Scope Z_scope.
+(* a name resolved through dae (question name in wire form) whose original TTL is running is "resolved"
+   for every sniffed spelling of that name *)
+Lemma resolved_name_is_known : forall evs qname q scope e now dom ttl,
+    In (EvResolved (store_key qname q scope) e) evs -> now < e ->
+    same_name qname dom = true ->
+    no_escaped_dot qname = true -> no_pipe qname = true -> no_escaped_dot dom = true ->
+    k_resolved (knowledge_now ttl evs (lookup_key dom q) dom now) = true.
+Proof.
+  intros evs qname q scope e now dom ttl Hin Hlt HS H1 H2 H3.
+  rewrite (store_key_is_lookup_key qname dom q scope HS H1 H2 H3) in Hin.
+  unfold knowledge_now. cbn [k_resolved].
+  assert (Hne : lookup_key dom q <> []).
+  { unfold lookup_key. rewrite key_canonical by auto. unfold spec_key. destruct (name_norm dom); discriminate. }
+  destruct (lookup_key dom q) eqn:EK; try congruence. rewrite <- EK in *.
+  apply resolved_now_true. exists e. split; auto.
+Qed.
+
+Lemma history_table_wire : forall is_ip mode now0 (h : list wire_op),
+    history_ok is_ip mode (init_state now0) [] (map op_of_wire h).
+Proof. intros. apply history_table. Qed.
